@@ -247,12 +247,21 @@ Definition dec_topts (s : sx) : option topts :=
   | _ => None
   end.
 
-(* request: (opts limit disk) -> verdict as 0/1 *)
+(* np.isclose(float(token), word) as the table of the pairs found close *)
+Definition dec_close (s : sx) : option (list (bytes * bytes)) :=
+  as_list (fun p => match p with SL [SB t; SB w] => Some (t, w) | _ => None end) s.
+Definition close_of (tbl : list (bytes * bytes)) (t w : bytes) : bool :=
+  existsb (fun p => bytes_eqb (fst p) t && bytes_eqb (snd p) w) tbl.
+
+(* request: (opts limit disk [close table]) -> verdict as 0/1 *)
 Definition e_taste (s : sx) : sx :=
   match s with
   | SL [o; limit; d] =>
       req (do o <- dec_topts o; do l <- as_optZ limit; do d <- dec_pdisk d; Some (o, l, d))
-          (fun '(o, l, d) => ok (of_bool (taste_good o l d)))
+          (fun '(o, l, d) => ok (of_bool (taste_good (close_of []) o l d)))
+  | SL [o; limit; d; tbl] =>
+      req (do o <- dec_topts o; do l <- as_optZ limit; do d <- dec_pdisk d; do tbl <- dec_close tbl; Some (o, l, d, tbl))
+          (fun '(o, l, d, tbl) => ok (of_bool (taste_good (close_of tbl) o l d)))
   | _ => bad_request
   end.
 
@@ -260,11 +269,12 @@ Definition e_taste (s : sx) : sx :=
    modelled part): returns the verdict per (headers, shape, data) *)
 Definition e_taste_all (s : sx) : sx :=
   match s with
-  | SL [limit; d] =>
-      req (do l <- as_optZ limit; do d <- dec_pdisk d; Some (l, d))
-          (fun '(l, d) =>
+  | SL [limit; d; tbl] =>
+      req (do l <- as_optZ limit; do d <- dec_pdisk d; do tbl <- dec_close tbl; Some (l, d, tbl))
+          (fun '(l, d, tbl) =>
              ok (of_list of_bool
-                   (map (fun k => taste_good {| t_headers := Nat.testbit k 0; t_shape := Nat.testbit k 1;
+                   (map (fun k => taste_good (close_of tbl)
+                                             {| t_headers := Nat.testbit k 0; t_shape := Nat.testbit k 1;
                                                 t_data := Nat.testbit k 2; t_coords := false |} l d)
                         (seq 0 8))))
   | _ => bad_request
